@@ -302,10 +302,16 @@ def explore(tier, seed, model_ok=True, focus=False):
                                              model=r[2], impl=r[3], op=tr[i][0],
                                              observed=json.loads(json.dumps(strip(tr[i][1]), default=str)),
                                              ops=[t[0] for t in trace]))
+    # closed composition proxy_dex x pair x two locked farms x energy factory (Model/ProxyClosed.v)
+    from props import proxy_closed_common as pcc
+    ex = pcc.merge(ex, pcc.explore_proxy_closed("C16", tier, seed, model_ok, focus))
     return ex
 
 
 def replay(data):
+    if data.get("replay", {}).get("system") == "proxy_closed":
+        from props import proxy_closed_common as pcc
+        return pcc.replay_proxy_closed(data)
     rp = data["replay"]
     trace = sp.replay_history(rp["cfg"], rp["ops"])
     fails = []
